@@ -953,6 +953,89 @@ fn descheduled_submitter_sweep(out: &mut Out, rt: &tokio::runtime::Runtime, swee
     }
 }
 
+/// Two submitters share one (already completed) task; the harness holds the task's result mutex — standing in for
+/// the first submitter cloning the result — while the second one calls `ready()` for the first time. After the
+/// mutex is released the late waiter must return the result.
+fn late_waiter_with_result_lock_held(out: &mut Out, rt: &tokio::runtime::Runtime) {
+    ctx_reset(0);
+    for n_late in 1..=3usize {
+        let tracker: TaskTracker<R, u64> = TaskTracker::new();
+        let mut noop = Context::from_waker(Waker::noop());
+        let mut block = |f: Fut<()>| {
+            let mut f = f;
+            for _ in 0..16 {
+                if f.as_mut().poll(&mut noop).is_ready() {
+                    return true;
+                }
+            }
+            false
+        };
+        // everybody tracks the same id, then the pipeline completes the task
+        let tasks: Arc<Mutex<Vec<p2panda::processor::verif::Task<R, u64>>>> = Arc::new(Mutex::new(vec![]));
+        for _ in 0..=n_late {
+            let (tr, ts) = (tracker.clone(), tasks.clone());
+            block(Box::pin(async move {
+                let t = tr.track(1).await;
+                ts.lock().unwrap().push(t);
+            }));
+        }
+        let tr = tracker.clone();
+        block(Box::pin(async move { tr.mark_as_done(1, (1, 0)).await }));
+        let tasks = tasks.lock().unwrap().clone();
+        // the first submitter is reading the result: the mutex is held
+        let guard_slot: Arc<Mutex<Option<tokio::sync::OwnedMutexGuard<Option<R>>>>> = Arc::new(Mutex::new(None));
+        {
+            let (t0, gs) = (tasks[0].clone(), guard_slot.clone());
+            block(Box::pin(async move {
+                let g = t0.verif_lock_result().await;
+                *gs.lock().unwrap() = Some(g);
+            }));
+        }
+        // the late waiters call ready() for the first time now
+        let mut futs: Vec<Fut<R>> = vec![];
+        for t in tasks.iter().skip(1) {
+            let t = t.clone();
+            let mut f: Fut<R> = Box::pin(async move { t.ready().await });
+            let _ = f.as_mut().poll(&mut noop);
+            futs.push(f);
+        }
+        // the first submitter is done with the result
+        guard_slot.lock().unwrap().take();
+        let mut answers = vec!["d1".to_string()];
+        for mut f in futs {
+            let mut word = None;
+            for _ in 0..8 {
+                if let Poll::Ready(r) = f.as_mut().poll(&mut noop) {
+                    word = Some(format!("d{}", r.0));
+                    break;
+                }
+            }
+            let word = match word {
+                Some(w) => w,
+                None => match rt.block_on(async { tokio::time::timeout(Duration::from_secs(3600), f.as_mut()).await }) {
+                    Ok(r) => format!("d{}", r.0),
+                    Err(_) => "stuck".to_string(),
+                },
+            };
+            answers.push(word);
+        }
+        let ids = vec![1u64; n_late + 1];
+        let req = format!("P {}", ids.iter().map(|i| i.to_string()).collect::<Vec<_>>().join(" "));
+        let ans = answers.join(" ");
+        let n = out.case(&req, &ans, true);
+        out.count("late-waiter:cases");
+        if let Some(t) = answers.iter().position(|a| a != "d1") {
+            out.oracle_fail(
+                n,
+                "late-waiter-skipped-result-check",
+                &format!("submitter {t} called ready() on an already completed task while another waiter held the result mutex; after the mutex was released it never returned (the result check was skipped and the only notification had already been fired)"),
+                &format!("{req} (result mutex held during the late ready() calls)"),
+                &ans,
+            );
+        }
+    }
+}
+
 /// Public path, no schedule points: `k` OS threads released by a barrier call `Pipeline::process` with the SAME
 /// operation (fresh operation every round, one pipeline for all rounds). Returns the number of rounds run.
 fn stress_same_operation(out: &mut Out, rt: &tokio::runtime::Runtime, rounds: usize, k: usize) {
@@ -1079,6 +1162,9 @@ fn main() {
         _ => (3000, 4),
     };
     stress_same_operation(&mut out, &live, rounds, k);
+
+    // 0e. a late waiter of a completed task calls ready() while another waiter holds the result mutex
+    late_waiter_with_result_lock_held(&mut out, &paused);
 
     // 0d. real Pipeline, the submitter descheduled at each await point of process() while the pipeline thread runs on
     descheduled_submitter_sweep(&mut out, &live, if quick { 116..=130 } else { 96..=140 });
